@@ -119,6 +119,13 @@ CHECKS = {
         design_ref="DESIGN.md §4 C02",
         note="A rule's behaviour on shapes the generator does not produce is unobserved; 17 of 85 pipeline rules do not fire on the quick workload (listed in the evidence).",
     ),
+    "C07": dict(
+        technique="runtime post-condition monitor with two independent extractors: the module surface of the input (ast, the statement's own list) must be a subset of the names bound in the same scopes of format_code(safe=True)'s output (symtable, weakest reading); a lost name is attributed to the pipeline step that dropped it",
+        category="exploration",
+        text="5 hand-written untidy modules (unused / camelCase / private / duplicate / static / self-less definitions, class attributes in every style, `_` and dunder assignments, starred and chained targets, conditional definitions), 220 (1500) generated untidy programs, repository examples, the construct zoo and standard-library files go through format_code(safe=True) (plus format_file(safe=True) and the CLI --safe on a sample); ~3.5k surface names per quick run are checked.",
+        design_ref="DESIGN.md §4 C07",
+        note="Imports, loop and with targets are not surface; 'still defined' = bound in any way in the corresponding scope (so `x = f()` turned into `with f() as x:` is accepted).",
+    ),
 }
 
 NOT_YET = {}
